@@ -457,7 +457,7 @@ def run(rep):
         "model/implementation comparison; richer Jsonnet is covered by implementation-only oracles",
         "numbers stay far below 2^53 (f64 exact)",
     ]
-    vlib.prelude(rep)
+    vlib.prelude(rep, extra_modules=['RsjProps.C07Eval'])
     rng = rep.rng
     quick = rep.tier == "quick"
     n_chains = 260 if quick else 9000
